@@ -16,7 +16,8 @@ CONSTANTS Chunks, Peers,      \* chunk ids; remote peer ids (the node itself is 
           PruneCache,         \* BOOLEAN: cleanup prunes cached manifests / plans (FALSE = historical deviation)
           CapPending,         \* BOOLEAN: a pending fetch's expiry is capped at now + MaxT (FALSE = historical deviation)
           EraseOnLookup,      \* BOOLEAN deviation: a lookup erases an expired chunk record silently
-          MaxHist             \* bound on the number of actions per behaviour
+          MaxHist,            \* bound on the number of actions per behaviour
+          WithdrawOnExpiry    \* BOOLEAN: the cleanup withdraws the node's own announcement of every chunk that expired (FALSE = deviation)
 
 Self == 0   \* peers are positive integers
 Holders == Peers \cup {Self}
@@ -36,8 +37,9 @@ VARIABLES now,
           \* ---- ghost (contract) ----
           rec,       \* rec[c] = [live, dl]   last local store / accepted replica
           bound,     \* bound[c] latest instant state derived for c may live to
-          owed, told \* expiry notifications owed / delivered (drained) per chunk
-dvars == <<now, chunk, cache, shard, prov, pend, pendE, plan, notif, lastClean, obs, rec, bound, owed, told>>
+          owed, told, \* expiry notifications owed / delivered (drained) per chunk
+          reaped     \* local chunks whose expiry the last cleanup tick processed
+dvars == <<now, chunk, cache, shard, prov, pend, pendE, plan, notif, lastClean, obs, rec, bound, owed, told, reaped>>
 
 Max2(a, b) == IF a > b THEN a ELSE b
 Min2(a, b) == IF a < b THEN a ELSE b
@@ -48,7 +50,7 @@ Init == /\ now = 0
         /\ prov = [c \in Chunks |-> [h \in Holders |-> None]] /\ pend = [c \in Chunks |-> None] /\ pendE = [c \in Chunks |-> None]
         /\ plan = [c \in Chunks |-> FALSE] /\ notif = <<>> /\ lastClean = 0 /\ obs = <<"init">>
         /\ rec = [c \in Chunks |-> [live |-> FALSE, dl |-> 0]] /\ bound = [c \in Chunks |-> None]
-        /\ owed = [c \in Chunks |-> 0] /\ told = [c \in Chunks |-> 0]
+        /\ owed = [c \in Chunks |-> 0] /\ told = [c \in Chunks |-> 0] /\ reaped = {}
 
 \* manifest_ttl(): remaining whole seconds, refused when expired or below the minimum, capped at the maximum
 Ttl(E) == IF E <= now \/ E - now < MinT THEN None ELSE Min2(E - now, MaxT)
@@ -65,6 +67,13 @@ Store(c, req) ==
     /\ bound' = [bound EXCEPT ![c] = Max2(@, now + t)]
     /\ obs' = <<"store", c, now + t>>
     /\ UNCHANGED <<now, pend, pendE, notif, lastClean, owed, told>>
+
+\* ---- announce_chunk(c, ttl): the operator re-announces a chunk with a TTL of its own ---------------
+SelfAnnounce(c, ttl) ==
+    /\ prov' = [prov EXCEPT ![c][Self] = now + ttl]
+    /\ bound' = [bound EXCEPT ![c] = Max2(@, now + ttl)]
+    /\ obs' = <<"selfann", c>>
+    /\ UNCHANGED <<now, chunk, cache, shard, pend, pendE, plan, notif, lastClean, rec, owed, told>>
 
 \* ---- ingest_manifest: manifest for c expiring at now + e ------------------------------------
 Ingest(c, e) ==
@@ -140,7 +149,7 @@ Tick(R) ==
            /\ UNCHANGED <<now, chunk, pendE, prov, plan, notif, lastClean, rec, owed, told>>
       ELSE LET gone  == {c \in Chunks : Dead(chunk[c])}
                chunk2 == [c \in Chunks |-> IF c \in gone THEN None ELSE chunk[c]]
-               prov2 == [c \in Chunks |-> [h \in Holders |-> IF Dead(prov[c][h]) \/ (h = Self /\ c \in gone) THEN None ELSE prov[c][h]]]
+               prov2 == [c \in Chunks |-> [h \in Holders |-> IF Dead(prov[c][h]) \/ (WithdrawOnExpiry /\ h = Self /\ c \in gone) THEN None ELSE prov[c][h]]]
                shard2 == [c \in Chunks |-> IF Dead(shard[c]) THEN None ELSE shard[c]]
                pendLive(c) == pend[c] # None /\ now < pend[c]
                drop(c) == PruneCache /\ cache[c] # None /\
@@ -189,23 +198,25 @@ C05_Clean == obs = <<"tick", TRUE>> => \A c \in Chunks :
     /\ \A h \in Holders : ~Dead(prov[c][h])
     /\ cache[c] # None => bound[c] > now
     /\ plan[c] => bound[c] > now
-    /\ (prov[c][Self] # None) => Live(c)
+    /\ c \in reaped => prov[c][Self] = None      \* own announcement of a local chunk that expired is withdrawn by the tick that reaps it
 \* [C05] each expired local chunk reported exactly once (checked when the notifications are drained)
 C05_Once == obs = <<"drained">> => \A c \in Chunks : told[c] = owed[c]
 
 -----------------------------------------------------------------------------
 VARIABLE hist
-vars == <<now, chunk, cache, shard, prov, pend, pendE, plan, notif, lastClean, obs, rec, bound, owed, told, hist>>
+vars == <<now, chunk, cache, shard, prov, pend, pendE, plan, notif, lastClean, obs, rec, bound, owed, told, reaped, hist>>
 Acts == {[op |-> "store", c |-> c, ttl |-> t] : c \in Chunks, t \in TtlReqs}
    \cup {[op |-> "ingest", c |-> c, e |-> e] : c \in Chunks, e \in Exps}
    \cup {[op |-> "announce", c |-> c, p |-> p, e |-> e, attl |-> a, assign |-> g] : c \in Chunks, p \in Peers, e \in Exps, a \in AdvTtls, g \in BOOLEAN}
    \cup {[op |-> "recv", c |-> c, e |-> e] : c \in Chunks, e \in Exps}
+   \cup {[op |-> "selfann", c |-> c, ttl |-> 9] : c \in Chunks}
    \cup {[op |-> "fetch", c |-> c] : c \in Chunks}
    \cup {[op |-> "list"], [op |-> "tick"], [op |-> "drain"], [op |-> "adv"]}
 Do(a) == CASE a.op = "store" -> Store(a.c, a.ttl)
            [] a.op = "ingest" -> Ingest(a.c, a.e)
            [] a.op = "announce" -> Announce(a.c, a.p, a.e, a.attl, a.assign)
            [] a.op = "recv" -> Recv(a.c, a.e)
+           [] a.op = "selfann" -> SelfAnnounce(a.c, a.ttl)
            [] a.op = "fetch" -> Fetch(a.c)
            [] a.op = "list" -> List
            [] a.op = "tick" -> \E R \in SUBSET Chunks : Tick(R)
@@ -213,6 +224,7 @@ Do(a) == CASE a.op = "store" -> Store(a.c, a.ttl)
            [] a.op = "adv" -> Advance
 MCInit == Init /\ hist = <<>>
 MCNext == \E a \in Acts : Do(a) /\ hist' = Append(hist, a)
+                            /\ reaped' = IF a.op = "tick" /\ now - lastClean >= CleanInt THEN {c \in Chunks : rec[c].live /\ rec[c].dl <= now} ELSE reaped
 MCSpec == MCInit /\ [][MCNext]_vars
 View == dvars
 Bound == now <= MaxNow /\ Len(hist) <= MaxHist /\ Len(notif) <= 3
